@@ -38,4 +38,36 @@ class C01(SysBase):
         return cases
 
 
+from mgrbase import MgrBase, protocol_scenario
+
+
+class C01Mgr(MgrBase):
+    """manager side of C01: pieces become owned only by the PieceDone of their assignee; the extractor is started only
+    when every piece is owned -- histories with duplicate completions (end-game, in-flight blocks of a choked peer),
+    kills and late joiners on the real Session"""
+    id = "C01"
+    coq_header = ("From Rdest Require Import Base Consts Wire Manager Corr.Mgr.\nOpen Scope N_scope.\n"
+                  "Definition codes := codes01m.\n")
+    rule = ""
+
+    def corpus(self):
+        # two peers complete the same piece (end-game duplicate), then one leaves while piece 1 is unfinished
+        ops = ["add 1", "init 1", "bf 1 11", "add 2", "init 2", "bf 2 11", "unchoke 1", "unchoke 2", "done 1", "done 2", "done 1",
+               "kill 2", "done 1", "kill 1"]
+        return [self.mk("prod", 2, 4, 7, ops, "completion")]
+
+    def gen(self, rng, tier):
+        k = {"quick": 200, "thorough": 5000, "search": 1200}.get(tier, 200)
+        w = {"unchoke": 5, "choke": 2, "have": 1, "done": 10, "cancel": 1, "kill": 2, "join": 2, "bf": 1, "nint": 1}
+        cases = []
+        for _ in range(k):
+            n = rng.choice([1, 2, 2, 3, 4])
+            pl = 4
+            total = pl * n - rng.randrange(0, pl)
+            ops = protocol_scenario(rng, rng.choice([2, 2, 3]), n, rng.choice([10, 16, 24]), weights=w)
+            cases.append(self.mk("prod", n, pl, total, ops, "completion"))
+        return cases
+
+
 PROP = C01()
+PROP.parts = [PROP, C01Mgr()]
